@@ -6,6 +6,16 @@ import json, os, re, subprocess, sys, glob
 out = sys.argv[1]
 os.makedirs(out, exist_ok=True)
 props = [json.loads(l) for l in open("/verif/properties.jsonl")]
+def places_of(d):
+    out, cur, seen = [], None, set()
+    for l in open(d + "/patch.diff", errors="replace"):
+        if l.startswith("+++ b/"):
+            cur = l[6:].strip()
+        m = re.match(r"@@ .* @@ (.*)", l)
+        if m and cur and (cur, m.group(1).strip()[:90]) not in seen:
+            seen.add((cur, m.group(1).strip()[:90])); out.append("%s: %s" % (cur, m.group(1).strip()[:90]))
+    return out
+everywhere = sorted({x for d in glob.glob("/verif/seeded/C*") for x in places_of(d)})
 for p in props:
     pid = p["id"]
     places = []
@@ -43,11 +53,14 @@ Requirements for the change:
 - It must need something SPECIFIC to manifest: a particular interleaving of goroutines, a fault at a particular point, a multi-step sequence of operations, an unusual input or option, or two cooperating sites that each look fine alone. Ordinary happy-path use must still work, and the existing tests must not catch it.
 - Other engineers have already seeded changes for this property at the places listed below (file: enclosing function as git shows it). Pick a DIFFERENT place or mechanism: another entry point of the public API, another option (compression, namespaces, reversed scans, lease renewal, priorities, timeouts, ...), another code path that enforces the same guarantee, shared state between two features. Do not re-introduce a bug that a previous commit whose message starts with "fix:" repaired (see `git log --oneline | grep fix:`).
 {places}
+  (Changes seeded for OTHER properties touched the following places; a change there is likely a repeat, prefer somewhere else:
+{others})
 - Write a demonstration: a NEW Go test file (name it zz_seeded_demo_test.go in the relevant package; you may use in-package access and the mocks under test/mock, fake net.Conn implementations, goroutines, etc.) containing one test `TestSeededDemo` that FAILS with your change applied and PASSES on the unchanged code. Verify both yourself: run it with the change; then save your change (`git diff > {wt}.my.patch`), undo it (`git checkout -- .`, the untracked demo file stays), run the demo again, then restore the change with `git apply {wt}.my.patch`. NEVER use `git stash` (the stash is shared between worktrees).
 - Finally leave in {wt}: (1) the library change applied in the working tree (uncommitted), (2) the demo test file, (3) a file SEEDED.md explaining: which lines you changed and why it breaks the property, exactly what is needed for it to manifest, and the commands you ran with their observed results (existing suite passes with the change; demo fails with it and passes without it).
 
 Think about where in the code the property is enforced (read the code), pick a spot whose breakage the existing tests do not exercise, and keep the change minimal. Report back a short summary (changed file/lines, what triggers it, verification results).
 """.format(wt=wt, pid=pid, title=p["title"], statement=p["statement"], quant=p["quantifier"]["text"],
-           places="\n".join("    - " + x for x in places))
+           places="\n".join("    - " + x for x in places),
+           others="\n".join("      " + x for x in everywhere if x not in places))
     open(os.path.join(out, pid + ".prompt.txt"), "w").write(txt)
 print("prepared", len(props), "worktrees under", out)
